@@ -7,7 +7,7 @@ EXTENDS Naturals, Sequences, FiniteSets, TLC, Json
 CONSTANTS MaxLen, Classes
 Params == { [d |-> d, s |-> s] : d \in 1..3, s \in 1..3 }
 TypesOf(c) == IF c \in {"seq2", "part_seq", "join"} THEN {"A", "B"}
-              ELSE IF c \in {"seq3ref", "kleene", "kleene_self"} THEN {"A", "B", "C"}
+              ELSE IF c \in {"seq3ref", "kleene", "kleene_self", "kleene_long"} THEN {"A", "B", "C"}
               ELSE IF c = "neg" THEN {"A", "B", "N"}
               ELSE {"A"}
 Ev(c) == [op : {"ev"}, type : TypesOf(c), k : 1..2, x : 0..2, dt : 0..2]
